@@ -1112,7 +1112,13 @@ func (t *Tree) Compile(file string, args []string, out io.Writer) (err error) {
 			printJump(ko)
 			_print("}")
 		case TypePredicate:
-			_print("\n   if !(%v) {", n)
+			/* the text may end in a newline or in a line comment, neither may
+			   come between the expression and the closing parenthesis */
+			code := strings.TrimSpace(n.String())
+			if strings.Contains(code, "//") {
+				code = "func() bool {\nreturn " + code + "\n}()"
+			}
+			_print("\n   if !(%v) {", code)
 			printJump(ko)
 			_print("}")
 		case TypeStateChange:
